@@ -11,6 +11,18 @@ CHECKS = {
         text="Generated and exhaustively enumerated small zones are asked every interesting name x 23 query types and each result is compared with an independent RFC 1034/4592 lookup over a flat record list. Exploration: held on every zone/query explored, no absence claim.",
         note="R-ZONE (harness/src/rzone.rs) is the trusted oracle; zones with data below a cut (D1) and wildcard NS (D2) are outside the claim.",
         ref="DESIGN.md §4 C02, Appendix A"),
+    "C03": dict(
+        level="exploration",
+        technique=PBT + "; differential against an independent RFC 1035 decoder (R-WIRE) over exhaustive single-byte mutants/truncations of generated messages, enumerated adversarial constructions and random bytes; crash isolation in child processes on 2 MiB stacks",
+        text="Every input is judged by: no panic/abort/stack overflow (child process, 2 MiB thread, release build), ID rule for Ok and Err, accept/reject equal to R-WIRE's and all decoded fields equal. Inputs: all single-byte mutations and truncations of generated valid messages encoded with arbitrary compression, ~150 adversarial constructions incl. maximal backward pointer chains, random bytes. Exploration, no absence claim; hangs surface as exit 2 (budget).",
+        note="R-WIRE (harness/src/rwire.rs) with the stated pointer/trailing-bytes policy is the trusted oracle; the stack bound is checked on a shallow 2 MiB thread, the real server path is exercised in C09.",
+        ref="DESIGN.md §4 C03, Appendix B"),
+    "C04": dict(
+        level="exploration",
+        technique=PBT + "; round trip through the implementation's codec, differential decode by R-WIRE, pointer audit; exhaustive header sweep and 16 KiB boundary sweep",
+        text="from_octets(to_octets(m)) == m for generated and enumerated messages (all 8192 header combinations exhaustively; bodies with shared names; encodings from 12 B to 64 KiB with the first occurrence of a name at every offset 16370..16400), the same bytes decode to the same message with the independent decoder, every emitted pointer addresses an earlier in-line copy of the identical name, and decode(encode(decode b)) == decode b for decodable byte strings.",
+        note="R-WIRE decoder and the pointer audit walker are trusted; equality is judged through public fields and the implementation's PartialEq.",
+        ref="DESIGN.md §4 C04"),
     "C16": dict(
         level="exploration",
         technique=PBT + "; validity predicate + metamorphic case-flip relation; exhaustive enumeration at the 63/255 boundaries",
